@@ -289,4 +289,156 @@ def sortVal : Val → Out Val
   | .dict kvs _ => (sorted valCmp (kvs.map (·.1))).map .list
   | _ => .throw
 
+/-! ### `sorted_by` / `sorted_on` (`sort(xs, f)`, `sort_on(xs, f)`): the function value is a parameter -/
+
+/-- a comparison that may raise, as a partial comparison (`none` = raises) -/
+def optOfOut (r : Out Ordering) : Option Ordering :=
+  match r with
+  | .ok o => some o
+  | _ => none
+
+/-- `sorted_on`, first pass: `(f(x), x)` for every element; the first error of `f` is raised -/
+def mapKeys (f : Val → Out Val) : List Val → Out (List (Val × Val))
+  | [] => .ok []
+  | x :: xs =>
+    match f x with
+    | .ok k => (mapKeys f xs).map fun r => (k, x) :: r
+    | .throw => .throw
+    | .panic => .panic
+
+/-- `sorted_on`: stable sort of the `(key, element)` pairs by `ncmp` of the keys (`nc`), then the
+elements; an incomparable pair of keys is an error -/
+def sortedOn (nc : Val → Val → Out Ordering) (f : Val → Out Val) (xs : List Val) : Out (List Val) :=
+  (mapKeys f xs).bind fun w =>
+    (sorted (fun p q : Val × Val => optOfOut (nc p.1 q.1)) w).map fun r => r.map (·.2)
+
+def zeroVal : Val := .num (.int (.small 0))
+
+/-- the comparator of `sorted_by`: `ncmp(f(a, b), 0)`; an error of `f` or a result that does not
+compare with 0 is an error -/
+def byCmp (nc : Val → Val → Out Ordering) (f : Val → Val → Out Val) (a b : Val) : Option Ordering :=
+  match f a b with
+  | .ok k => optOfOut (nc k zeroVal)
+  | _ => none
+
+/-- `sorted_by` -/
+def sortedBy (nc : Val → Val → Out Ordering) (f : Val → Val → Out Val) (xs : List Val) : Out (List Val) :=
+  sorted (byCmp nc f) xs
+
+/-- what `multi!` iterates over and how it rebuilds the result: list → list, vector → vector (of
+the same numbers), bytes → bytes, string → string (its characters as one-character strings), dict
+→ list of its keys -/
+def seqElems : Val → Option (List Val)
+  | .list xs => some xs
+  | .vec xs => some (xs.map .num)
+  | .bytes bs => some (bs.map fun b => .num (.int (.small (Int.ofNat b))))
+  | .str cs => some (cs.map fun c => .str [c])
+  | .dict kvs _ => some (kvs.map (·.1))
+  | _ => none
+
+def rebuildLike (orig : Val) (r : List Val) : Val :=
+  match orig with
+  | .vec _ => .vec (r.filterMap fun v => match v with
+      | .num n => some n
+      | _ => none)
+  | .bytes _ => .bytes (r.filterMap fun v => match v with
+      | .num (.int n) => some n.val.toNat
+      | _ => none)
+  | .str _ => .str (r.flatMap fun v => match v with
+      | .str cs => cs
+      | _ => [])
+  | _ => .list r
+
+/-- `multi_sort_on` -/
+def sortOnVal (nc : Val → Val → Out Ordering) (f : Val → Out Val) (v : Val) : Out Val :=
+  match seqElems v with
+  | some xs => (sortedOn nc f xs).map (rebuildLike v)
+  | none => .throw
+/-- `multi_sort_by` -/
+def sortByVal (nc : Val → Val → Out Ordering) (f : Val → Val → Out Val) (v : Val) : Out Val :=
+  match seqElems v with
+  | some xs => (sortedBy nc f xs).map (rebuildLike v)
+  | none => .throw
+
+/-! #### the finite table of function values the differential run uses -/
+
+def F64.neg : F64 → F64
+  | .nan => .nan
+  | .inf n => .inf (!n)
+  | .fin m e => if m = 0 then .nzero else .fin (-m) e
+  | .nzero => .fin 0 0
+def F64.abs : F64 → F64
+  | .nan => .nan
+  | .inf _ => .inf false
+  | .fin m e => .fin (if m < 0 then -m else m) e
+  | .nzero => .fin 0 0
+
+/-- unary minus on a number -/
+def NNum.neg : NNum → NNum
+  | .int a => .int (NInt.neg a)
+  | .rat q => .rat (-q)
+  | .float f => .float f.neg
+  | .complex re im => .complex re.neg im.neg
+/-- `abs` on a real number (complex magnitudes are float arithmetic: not modelled) -/
+def NNum.abs? : NNum → Option NNum
+  | .int a => some (.int (NInt.abs a))
+  | .rat q => some (.rat (if q < 0 then -q else q))
+  | .float f => some (.float f.abs)
+  | .complex _ _ => none
+
+def allSome {α : Type} : List (Option α) → Option (List α)
+  | [] => some []
+  | none :: _ => none
+  | some x :: xs => (allSome xs).map (x :: ·)
+
+/-- key functions: `id` = `\\x -> x`, `neg` = `\\x -> -x`, `abs`, `len`, `first`, `const0` = `\\x -> 0`,
+`pair0` = `\\x -> [x, 0]`, anything else raises -/
+def keyFn (name : String) (x : Val) : Out Val :=
+  match name with
+  | "id" => .ok x
+  | "neg" => match x with
+    | .num n => .ok (.num n.neg)
+    | .vec ns => .ok (.vec (ns.map NNum.neg))
+    | _ => .throw
+  | "abs" => match x with
+    | .num n => match n.abs? with
+      | some r => .ok (.num r)
+      | none => .panic       -- outside the modelled fragment (never generated)
+    | .vec ns => match allSome (ns.map NNum.abs?) with
+      | some rs => .ok (.vec rs)
+      | none => .panic
+    | _ => .throw
+  | "len" => match x with
+    | .list xs => .ok (.num (.int (.small xs.length)))
+    | .vec xs => .ok (.num (.int (.small xs.length)))
+    | .bytes bs => .ok (.num (.int (.small bs.length)))
+    | .str cs => .ok (.num (.int (.small (utf8 cs).length)))
+    | .dict kvs _ => .ok (.num (.int (.small kvs.length)))
+    | _ => .throw
+  | "first" => match x with
+    | .list (y :: _) => .ok y
+    | .vec (n :: _) => .ok (.num n)
+    | .bytes (b :: _) => .ok (.num (.int (.small (Int.ofNat b))))
+    | _ => .throw
+  | "const0" => .ok zeroVal
+  | "pair0" => .ok (.list [x, zeroVal])
+  | _ => .throw
+
+def ordVal (o : Ordering) : Val :=
+  .num (.int (.small (match o with | .lt => -1 | .eq => 0 | .gt => 1)))
+
+/-- comparators: `cmp` = `<=>`, `rcmp` = `\\a, b -> b <=> a`, `revop` = `>=<`, `half` =
+`\\a, b -> (a <=> b) / 2` (a rational), `bylen` = `\\a, b -> len(a) <=> len(b)`, `const0`, `str` =
+`\\a, b -> "x"` (does not compare with 0), anything else raises -/
+def cmpFn (nc : Val → Val → Out Ordering) (name : String) (a b : Val) : Out Val :=
+  match name with
+  | "cmp" => (nc a b).map ordVal
+  | "rcmp" => (nc b a).map ordVal
+  | "revop" => (nc a b).map fun o => ordVal o.swap
+  | "half" => (nc a b).map fun o => .num (.rat (match o with | .lt => -1/2 | .eq => 0 | .gt => 1/2))
+  | "bylen" => (keyFn "len" a).bind fun la => (keyFn "len" b).bind fun lb => (nc la lb).map ordVal
+  | "const0" => .ok zeroVal
+  | "str" => .ok (.str [120])
+  | _ => .throw
+
 end Noulith
